@@ -90,6 +90,16 @@ AddUnionOrdAct(H, ordN, ordE) ==          \* add() up to (excluding) its final s
 
 AddUnionAct(H) == AddUnionOrdAct(H, SortedSeqOf(SharedNodes(G, H)), SortedSeqOf(SharedEdges(G, H)))
 
+(* _insert_opchain between two existing nodes whose levels differ by the chain length: adds (paths to the start node) x    *)
+(* chain x (paths from the end node) to the meaning                                                                      *)
+InsertChainAct(a, b, oids, coeffs, qs, dir) ==
+    /\ a \in NodeIds(G) /\ b \in NodeIds(G) /\ Len(oids) >= 1 /\ Len(coeffs) = Len(oids) /\ Len(qs) = Len(oids) - 1
+    /\ dir \in {0, 1}
+    /\ IF dir = 1 THEN LevelOf(G, b) - LevelOf(G, a) = Len(oids) ELSE LevelOf(G, a) - LevelOf(G, b) = Len(oids)
+    /\ G' = InsertChain(G, a, b, oids, coeffs, qs, dir)
+    /\ den0' = PolyAdd(den0, IF dir = 1 THEN PolyMul(PolyMul(PathsToNode(G, a), ChainWordPoly(oids, coeffs, 1)), PathsFromNode(G, b))
+                                ELSE PolyMul(PolyMul(PathsToNode(G, b), ChainWordPoly(oids, coeffs, 0)), PathsFromNode(G, a)))
+
 SimplifyStep(dir) ==
     /\ Running
     /\ \E p \in MergeablePairs(G, dir) :
